@@ -158,7 +158,7 @@ func (d *groupDomain) decode(x, y, z *absint.Poly) (gelt, string) {
 	}
 	_ = ky // weight of the concrete identity (0:c:0); it carries no point
 	if gx.key() != gy.key() || gx.key() != gz.key() {
-		return nil, "the three coordinates describe different combinations"
+		return nil, "the three coordinates describe different combinations: x " + gx.String() + " | y " + gy.String() + " | z " + gz.String()
 	}
 	return gx, ""
 }
